@@ -111,7 +111,11 @@ static int view_cmp(uint64_t na, const uint16_t *a, uint64_t nb, const uint16_t 
 #define QNUM8(d) ((d)->f3 == QB_OFF && ((struct qb*)(d))->isnum)
 #define QTAG16(d) ((d)->f3 == QS_OFF ? ((struct qs*)(d))->b64 : (QAD*)0)
 #define QTAG8(d) ((d)->f3 == QB_OFF ? ((struct qb*)(d))->b64 : (QAD*)0)
-static int vpl_qeq16(QAD *a, QAD *b) { for (uint32_t i = 0; i < QHINT16(a) && i < QHINT16(b); i++) { if (i >= a->f1) break; if (((uint16_t*)((char*)a + a->f3))[i] != ((uint16_t*)((char*)b + b->f3))[i]) return 0; } return 1; }
+#ifndef QCAP
+#define QCAP 12u
+#endif
+static int vpl_qeq16(QAD *a, QAD *b) { uint32_t i = 0; for (; i < QHINT16(a) && i < QHINT16(b) && i < QCAP; i++) { if (i >= a->f1) break; if (((uint16_t*)((char*)a + a->f3))[i] != ((uint16_t*)((char*)b + b->f3))[i]) return 0; }
+  ASSERT(!(i == QCAP && a->f1 > QCAP), "string comparison longer than QCAP units"); return 1; }
 static int vpl_qeq8(QAD *a, QAD *b) { for (uint32_t i = 0; i < QHINT8(a) && i < QHINT8(b); i++) { if (i >= a->f1) break; if (((uint8_t*)((char*)a + a->f3))[i] != ((uint8_t*)((char*)b + b->f3))[i]) return 0; } return 1; }
 static int qb_eq(QAD *a, QAD *b); static int qb_eq_raw(QAD *a, QAD *b);
 static int d_eq(QAD *a, QAD *b) { if (a->f1 != b->f1) return 0; return vpl_qeq16(a, b); }
@@ -144,7 +148,19 @@ char* _ZN7QStringaSERKS_(char *self, char *o) { QAD *n = qad_ref(*(QAD**)o); qad
 char* _ZN7QStringaSE5QChar(char *self, uint16_t c) { QAD *d = qs_new(1, 1); SD(d)[0] = c; *(QAD**)self = d; return self; }
 char* _ZN7QStringaSE13QLatin1String(char *self, uint32_t n, char *l) { QAD *d = qs_new(n, n); vpl_widen(d, 0, (uint8_t*)l, n, n); *(QAD**)self = d; return self; }
 uint8_t _ZeqRK7QStringS1_(char *a, char *b) { return d_eq(*(QAD**)a, *(QAD**)b); }
-uint8_t _ZltRK7QStringS1_(char *a, char *b) { QAD *x = *(QAD**)a, *y = *(QAD**)b; return view_cmp(x->f1, qs_chars(x), y->f1, qs_chars(y)) < 0; }
+/* block-based order: every dereference is `block + constant offset`, so it folds per candidate when the block pointer is an if-then-else
+   of several blocks (a raw character pointer passed through a parameter does not: its POINTER_OFFSET stays symbolic) */
+#define QCH16(d) ((uint16_t*)((char*)(d) + (d)->f3))
+/* QCAP: constant cap on the comparison loops. A string pointer loaded from a list slot after a symbolic sort carries an
+   "unknown object" alternative in cbmc's value set (same block, different offsets => offset lost), whose hint is not a constant;
+   the cap keeps the unrolling finite and small. Hitting the cap with both strings longer is flagged (inconclusive). */
+#ifndef QCAP
+#define QCAP 12u
+#endif
+static int vpl_qcmp16(QAD *a, QAD *b) { uint32_t i = 0; for (; i < QHINT16(a) && i < QHINT16(b) && i < QCAP; i++) { if (i >= a->f1 || i >= b->f1) break; if (QCH16(a)[i] != QCH16(b)[i]) return QCH16(a)[i] < QCH16(b)[i] ? -1 : 1; }
+  ASSERT(!(i == QCAP && a->f1 > QCAP && b->f1 > QCAP), "string comparison longer than QCAP units");
+  return a->f1 == b->f1 ? 0 : (a->f1 < b->f1 ? -1 : 1); }
+uint8_t _ZltRK7QStringS1_(char *a, char *b) { return vpl_qcmp16(*(QAD**)a, *(QAD**)b) < 0; }
 uint8_t _ZNK7QStringeqE13QLatin1String(char *a, uint32_t n, char *l) { QAD *x = *(QAD**)a; if (numS(x).isnum || x->f1 != n) return 0; return vpl_cmp16_8(qs_chars(x), (uint8_t*)l, n, x->f1, n) == 0; }
 uint32_t _ZN9QtPrivate14compareStringsE11QStringViewS0_N2Qt15CaseSensitivityE(uint64_t na, char *a, uint64_t nb, char *b, uint32_t cs) {
   ASSERT(cs == 1, "case-insensitive compare not modelled"); return (uint32_t)view_cmp(na, (uint16_t*)a, nb, (uint16_t*)b); }
